@@ -7,15 +7,15 @@ CONSTANTS
   LegacyBreak = FALSE
   MetricDefs <- TreeMetrics
   SlotDefs <- TreeSlots4
-  Sizes <- Sz13
+  Sizes <- Sz3
   WWs = {1}
   MWs = {1}
-  NWs = {1}
+  NWs = {1, 2}
   GWs = {1}
   Buds = {0}
   NSAs = {FALSE}
   OptSets <- OptsTreeFull
-  Budgets = {3}
+  Budgets = {4}
 VIEW MCView
 INVARIANTS TypeOK AtMostOnce ExactlyOnce Unbiased KeptRowsFactorGE1 NoSampleAgentKept SameFactorInLeaf FitsNothingSampled FairShare FixedWithinBudget FairShareRemaining FitIsJustified Monotone KeptWithinBudget QuotaWithinTotal QuotaProportional QuotaFitIsSize QuotaWithinTotalAnyRounding
 CHECK_DEADLOCK FALSE
